@@ -222,6 +222,9 @@ def checkPassSegs (p : DPass) (stage : String) (regs : List (DRegion × List Nat
   let mut ms : Array MState := (base.map (fun s => ({ lo := withChannel false so s, hi := withChannel true so s } : MState))).toArray
   let mut routes : List (Nat × Array Pt) := p.conns.map (fun c => (c.id, c.ps.toArray))
   let mut stats : List String := []
+  -- position (within the pass) of the dumped region every model segment was found in
+  let mut assign : Array (Option Nat) := Array.replicate base.length none
+  let mut rpos := 0
   let here := s!"segment tie, pass {p.idx} (dim {dim}, {stage}, option nudgeFinal={p.nf})"
   let cur (routes : List (Nat × Array Pt)) (m : MSeg) : Rat × Rat × Rat :=
     match lookup routes m.seg.conn with
@@ -267,6 +270,7 @@ def checkPassSegs (p : DPass) (stage : String) (regs : List (DRegion × List Nat
           if !ds.cps.isEmpty then stats := "segtie.seg.with-checkpoints" :: stats
           if ds.endsInShape then stats := "segtie.seg.endsInShape" :: stats
           ms := ms.set! j { m with used := true }
+          assign := assign.set! j (some rpos)
           if !ds.fixed then writes := (ds.conn, [m.lo.idxLow, m.lo.idxHigh], wr) :: writes
       else
         -- merged by linesort (`mergeWith`): nidx/2 unused model segments of the connector that together span the merged extent,
@@ -285,23 +289,13 @@ def checkPassSegs (p : DPass) (stage : String) (regs : List (DRegion × List Nat
           let m := msNow[j]!
           let (l, h, ps) := cur routesNow m.lo
           { (if hiVar then m.hi.seg else m.lo.seg) with lo := l, hi := h, pos := ps }
-        -- `mergeWith`
-        let merge (a b : RSeg) : RSeg :=
-          let mn := max a.minLim b.minLim
-          let mx := min a.maxLim b.maxLim
-          let mid := if b.pos < a.pos then a.pos - (a.pos - b.pos) / 2 else if b.pos > a.pos then a.pos + (b.pos - a.pos) / 2 else a.pos
-          { a with minLim := mn, maxLim := mx, pos := min mx (max mn mid), lo := min a.lo b.lo, hi := max a.hi b.hi }
         -- the surviving segment `a` (it carries the dumped flags) absorbs the others one by one, each time `shouldAlignWith` holds
         let good (parts : List Nat) : Bool :=
           parts.any (fun ja =>
             let a := now ja false
             let flagsOk := a.fixed == ds.fixed && a.finalSeg == ds.finalSeg && a.endsInShape == ds.endsInShape && a.single == ds.single && a.sBend == ds.sBend && a.zBend == ds.zBend && a.cps == ds.cps
             let rest := parts.filter (· != ja)
-            let step (hiVar : Bool) : Option RSeg := rest.foldl (fun (acc : Option RSeg) jb =>
-              match acc with
-              | none => none
-              | some x => let b := now jb hiVar
-                          if shouldAlignWith o x b then some (merge x b) else none) (some (now ja hiVar))
+            let step (hiVar : Bool) : Option RSeg := mergeChain o (now ja hiVar) (rest.map (fun jb => now jb hiVar))
             match step false, step true with
             | some lo, some hi =>
               flagsOk && lo.lo == ds.lo && lo.hi == ds.hi && decide (lo.minLim ≤ ds.minLim) && decide (ds.minLim ≤ hi.minLim) &&
@@ -315,15 +309,37 @@ def checkPassSegs (p : DPass) (stage : String) (regs : List (DRegion × List Nat
         for j in parts do
           idxs := idxs ++ [ms[j]!.lo.idxLow, ms[j]!.lo.idxHigh]
           ms := ms.set! j { ms[j]! with used := true }
+          assign := assign.set! j (some rpos)
         writes := (ds.conn, idxs, wr) :: writes
     -- write-back of this region (and of linesort's merge) onto the copy of the routes
     for (cid, idxs, v) in writes do
       routes := routes.map (fun (id, arr) => if id == cid then
         (id, idxs.foldl (fun (a : Array Pt) i => a.modify i (fun q => if dim == 0 then { q with x := v } else { q with y := v })) arr) else (id, arr))
+    rpos := rpos + 1
   if complete then
     for m in ms do
       if !m.used then
         return (some s!"{here}: the model builds a segment that is in no dumped region: {showS m.lo.seg} (route indexes {m.lo.idxLow},{m.lo.idxHigh})", stats)
+  -- region formation: the region-growing loop of nudgeOrthogonalRoutes (Model/NudgeRegion.formAll, proved closed in
+  -- Props/C10Region) run on the MODEL's segment list in construction order must produce the dumped regions, in the dumped order
+  if complete then
+    match regs.head? with
+    | none => pure ()
+    | some (r0, _) =>
+      let o := r0.opts
+      if ms.any (fun m => m.lo.seg.minLim != m.hi.seg.minLim || m.lo.seg.maxLim != m.hi.seg.maxLim) then stats := "segtie.formation.skipped-address-tie" :: stats
+      else
+        let tagged : List (Nat × RSeg) := (ms.toList.map (·.lo.seg)).zipIdx.map (fun (sg, j) => (j, sg))
+        let formed := formAll (fun (a b : Nat × RSeg) => overlapsWith o a.2 b.2) tagged.length tagged
+        for (reg, k) in formed.zipIdx do
+          let want := reg.map (·.1)
+          let got := (List.range ms.size).filter (fun j => assign[j]! == some k)
+          if want.any (fun j => !got.contains j) || got.any (fun j => !want.contains j) then
+            let rid := (regs.getD k default).1.idx
+            return (some s!"{here}: region formation: the region-growing loop run on the model's segment list puts segments #{want} (in construction order) into region number {k} of the pass, the code's region {rid} holds #{got}", stats)
+        if formed.length != regs.length then
+          return (some s!"{here}: region formation: model forms {formed.length} regions, code {regs.length}", stats)
+        stats := "segtie.formation.checked" :: stats
   stats := "segtie.passes" :: stats
   return (none, stats)
 
